@@ -189,6 +189,74 @@ fn swap_mutex_fair() {
 fn swap_mutex_unfair() {
     swap_mutex(false)
 }
+/// the notified lock future is dropped on one thread while another thread is inside an unrelated
+/// critical section: the wake-up must be passed on
+fn mutex_notified_drop_contended(fair: bool) {
+    let m = Arc::new(GenericMutex::<LoomRaw, Tracked>::new(Tracked::new(), fair));
+    let _ = m.is_locked();
+    let mr: &'static GenericMutex<LoomRaw, Tracked> = unsafe { &*(&*m as *const GenericMutex<LoomRaw, Tracked>) };
+    let g = mr.try_lock().unwrap();
+    let mut f1 = Box::pin(mr.lock());
+    let mut f2 = Box::pin(mr.lock());
+    let (w1, c1) = counting_waker();
+    let (w2, c2) = counting_waker();
+    assert!(f1.as_mut().poll(&mut Context::from_waker(&w1)).is_pending());
+    assert!(f2.as_mut().poll(&mut Context::from_waker(&w2)).is_pending());
+    drop(g);
+    assert_eq!(c1.load(Ordering::SeqCst), 1, "C03: unlock must wake the longest-waiting future");
+    let m2 = m.clone();
+    let hx = loom::thread::spawn(move || {
+        let _ = m2.is_locked();
+    });
+    let hd = loom::thread::spawn(move || drop(f1));
+    hx.join().unwrap();
+    hd.join().unwrap();
+    assert!(c2.load(Ordering::SeqCst) > 0, "C03: a notified lock future was dropped but the wake-up was not passed on");
+    assert!(f2.as_mut().poll(&mut Context::from_waker(&w2)).is_ready(), "C03: the mutex is free but the woken future does not lock it");
+    drop(f2);
+}
+fn mutex_notified_drop_contended_fair() {
+    mutex_notified_drop_contended(true)
+}
+fn mutex_notified_drop_contended_unfair() {
+    mutex_notified_drop_contended(false)
+}
+
+fn sem_notified_drop_contended(fair: bool) {
+    let s = Arc::new(GenericSemaphore::<LoomRaw>::new(fair, 0));
+    let _ = s.permits();
+    let sr: &'static GenericSemaphore<LoomRaw> = unsafe { &*(&*s as *const GenericSemaphore<LoomRaw>) };
+    let mut f1 = Box::pin(sr.acquire(1));
+    let mut f2 = Box::pin(sr.acquire(1));
+    let (w1, c1) = counting_waker();
+    let (w2, c2) = counting_waker();
+    assert!(f1.as_mut().poll(&mut Context::from_waker(&w1)).is_pending());
+    assert!(f2.as_mut().poll(&mut Context::from_waker(&w2)).is_pending());
+    s.release(1);
+    assert_eq!(c1.load(Ordering::SeqCst), 1, "C06: release must wake the longest-waiting request that fits");
+    let s2 = s.clone();
+    let hx = loom::thread::spawn(move || {
+        let _ = s2.permits();
+    });
+    let hd = loom::thread::spawn(move || drop(f1));
+    hx.join().unwrap();
+    hd.join().unwrap();
+    assert!(c2.load(Ordering::SeqCst) > 0, "C06: a notified acquire future was dropped but the wake-up was not passed on");
+    match f2.as_mut().poll(&mut Context::from_waker(&w2)) {
+        Poll::Ready(mut r) => {
+            r.disarm();
+        }
+        Poll::Pending => panic!("C06: the permit is available but the woken future does not acquire it"),
+    }
+    drop(f2);
+}
+fn sem_notified_drop_contended_fair() {
+    sem_notified_drop_contended(true)
+}
+fn sem_notified_drop_contended_unfair() {
+    sem_notified_drop_contended(false)
+}
+
 fn swap_sem(fair: bool) {
     let s = Arc::new(GenericSemaphore::<LoomRaw>::new(fair, 0));
     let _ = s.permits();
@@ -641,6 +709,30 @@ fn mpmc_last_receiver_clears() {
     drop(tx);
 }
 
+/// a notified receiver is dropped on one thread while another thread is inside an unrelated
+/// critical section of the channel: the wake-up must still be passed on to the next receiver
+fn mpmc_notified_drop_contended() {
+    let (tx, rx) = sh::generic_channel::<LoomRaw, u32, FixedHeapBuf<u32>>(1);
+    let _ = rx.try_receive();
+    let mut r1 = Box::pin(rx.receive());
+    let mut r2 = Box::pin(rx.receive());
+    let (w1, c1) = counting_waker();
+    let (w2, c2) = counting_waker();
+    assert!(r1.as_mut().poll(&mut Context::from_waker(&w1)).is_pending());
+    assert!(r2.as_mut().poll(&mut Context::from_waker(&w2)).is_pending());
+    tx.try_send(1).unwrap();
+    assert_eq!(c1.load(Ordering::SeqCst), 1, "C10: the oldest receiver must be woken by the send");
+    let tx2 = tx.clone();
+    let hx = loom::thread::spawn(move || {
+        let _ = tx2.try_send(2); // Full: a critical section that notifies nobody
+    });
+    let hd = loom::thread::spawn(move || drop(r1));
+    hx.join().unwrap();
+    hd.join().unwrap();
+    assert!(c2.load(Ordering::SeqCst) > 0, "C10: a notified receiver was dropped but the wake-up was not passed on to the next pending receiver");
+    assert_eq!(r2.as_mut().poll(&mut Context::from_waker(&w2)), Poll::Ready(Some(1)), "C10: the value is buffered but the woken receiver does not get it");
+}
+
 /// cap 1: value 1 buffered, send(2) parked; a receive races with try_send(3): 2 took effect before 3
 fn mpmc_refill_race() {
     let (tx, rx) = sh::generic_channel::<LoomRaw, u32, FixedHeapBuf<u32>>(1);
@@ -1090,6 +1182,11 @@ const SCENARIOS: &[(&str, &str, Scenario)] = &[
     ("event_set_vs_reset", "C14", event_set_vs_reset),
     ("mpmc_last_receiver_clears", "hook:C11", mpmc_last_receiver_clears),
     ("mpmc_refill_race", "C09", mpmc_refill_race),
+    ("mpmc_notified_drop_contended", "C10", mpmc_notified_drop_contended),
+    ("mutex_notified_drop_contended_fair", "C03", mutex_notified_drop_contended_fair),
+    ("mutex_notified_drop_contended_unfair", "C03", mutex_notified_drop_contended_unfair),
+    ("sem_notified_drop_contended_fair", "C06", sem_notified_drop_contended_fair),
+    ("sem_notified_drop_contended_unfair", "C06", sem_notified_drop_contended_unfair),
     ("state_try_receive_contended", "C13", state_try_receive_contended),
     ("timer_check_contended", "C15", timer_check_contended),
     ("swap_mutex_fair", "C03", swap_mutex_fair),
